@@ -1,0 +1,151 @@
+//go:build verif
+
+package crdt
+
+// Contracts checked by /verif's govc.  Comments only; build tag "verif".
+
+//@ unit crdt errflow
+//@ ghost failed bool
+//@ // a storage operation returned an error other than "not found" / stored bytes could not be decoded
+//@ ghost storeFailed bool
+//@ ghost corrupt bool
+//@ // number of writes (Set/Delete) issued to the store; last priority written
+//@ ghost sets int
+//@
+//@ extern NewErr* -> (e)
+//@   ensures e != nil
+//@   nodefault
+//@ extern errors.* -> (e)
+//@   nodefault
+//@ extern (keys.DataStoreKey).* -> (r)
+//@   pure
+//@   nodefault
+//@ extern (keys.PrimaryDataStoreKey).* -> (r)
+//@   pure
+//@   nodefault
+//@ extern binary.PutUvarint(buf, x) -> (n)
+//@   ensures n > 0
+//@   nodefault
+//@ extern binary.Uvarint(buf) -> (v, n)
+//@   ensures old(corrupt) ==> corrupt
+//@   ensures n <= 0 ==> corrupt
+//@   ensures n > 0 ==> corrupt == old(corrupt)
+//@   modifies corrupt
+//@   nodefault
+//@
+//@ // the store, as far as these contracts need it (A4)
+//@ extern (corekv.ReaderWriter).Get(s, ctx, k) -> (v, e)
+//@   ensures old(storeFailed) ==> storeFailed
+//@   ensures e != nil && !is(e, corekv.ErrNotFound) ==> storeFailed
+//@   ensures e == nil || is(e, corekv.ErrNotFound) ==> storeFailed == old(storeFailed)
+//@   modifies storeFailed
+//@ extern (corekv.ReaderWriter).Set(s, ctx, k, v) -> (e)
+//@   ensures sets == old(sets) + 1
+//@   ensures old(storeFailed) ==> storeFailed
+//@   ensures e != nil ==> storeFailed
+//@   ensures e == nil ==> storeFailed == old(storeFailed)
+//@   modifies sets, storeFailed
+//@ extern (corekv.ReaderWriter).Delete(s, ctx, k) -> (e)
+//@   ensures sets == old(sets) + 1
+//@   ensures old(storeFailed) ==> storeFailed
+//@   ensures e != nil ==> storeFailed
+//@   ensures e == nil ==> storeFailed == old(storeFailed)
+//@   modifies sets, storeFailed
+//@ extern bytes.Compare(a, b) -> (c)
+//@   nodefault
+//@ extern bytes.Equal(a, b) -> (r)
+//@   nodefault
+//@
+//@ protocol ErrFlow
+//@   requires !failed
+//@   ensures errResult == nil ==> !failed
+//@   modifies failed
+//@   tags C05
+//@ apply ErrFlow: (*LWW).Merge, (*LWW).setValue, (*Counter).Merge, (*Counter).incrementValue, (*DocComposite).Merge,
+//@   (DocComposite).deleteWithPrefix, getPriority, setPriority
+//@
+//@ func getPriority -> (p, err)
+//@   tolerates call#1 Get when is(e, corekv.ErrNotFound) "an absent priority key means priority 0"
+//@   ensures old(storeFailed) ==> storeFailed
+//@   ensures old(corrupt) ==> corrupt
+//@   ensures err != nil ==> storeFailed || corrupt
+//@   ensures err == nil ==> storeFailed == old(storeFailed) && corrupt == old(corrupt)
+//@   ensures sets == old(sets)
+//@   modifies storeFailed, corrupt
+//@   tags C01 C02
+//@ func setPriority -> (err)
+//@   assert before call#1 PutUvarint: arg1 == priority
+//@   assert before call#1 WithPriorityFlag: arg0 == key
+//@   ensures sets <= old(sets) + 1
+//@   ensures err == nil ==> sets == old(sets) + 1
+//@   ensures old(storeFailed) ==> storeFailed
+//@   ensures err != nil ==> storeFailed
+//@   ensures err == nil ==> storeFailed == old(storeFailed)
+//@   ensures corrupt == old(corrupt)
+//@   modifies sets, storeFailed
+//@   tags C01 C02
+//@
+//@ // ===== C01/C02: the register keeps the maximum under (height, encoded value) ========================
+//@ // The incoming write wins exactly when its height is greater, or equal with a greater value; a losing
+//@ // write changes nothing; a winning write stores the value and the height.  A merge fails only when
+//@ // the store fails.
+//@ func (*LWW).setValue -> (err)
+//@   requires !storeFailed && !corrupt
+//@   tolerates call#1 Get when is(e, corekv.ErrNotFound) "no object marker yet: the document is not deleted"
+//@   tolerates call#2 Get when is(e, corekv.ErrNotFound) "an absent value key is the nil value"
+//@   assert before call#1 Compare: (res(Get, 2, 1) == nil ==> sameslice(arg0, res(Get, 2, 0))) && (res(Get, 2, 1) != nil ==> sameslice(arg0, client.CborNil)) && sameslice(arg1, val)
+//@   assert before call#1 Set: sameslice(arg3, val)
+//@   assert before call#1 setPriority: arg3 == priority && arg2 == reg.key
+//@   assert before call#1 getPriority: arg2 == reg.key
+//@   ensures err == nil && (priority > res(getPriority, 1, 0) || (priority == res(getPriority, 1, 0) && res(Compare, 1, 0) < 0)) ==> sets == old(sets) + 2
+//@   ensures err == nil && !(priority > res(getPriority, 1, 0) || (priority == res(getPriority, 1, 0) && res(Compare, 1, 0) < 0)) ==> sets == old(sets)
+//@   ensures err != nil ==> storeFailed || corrupt
+//@   modifies sets, storeFailed, corrupt
+//@   tags C01 C02
+//@ func (*LWW).Merge -> (err)
+//@   requires !storeFailed && !corrupt
+//@   modifies sets, storeFailed, corrupt
+//@   assert before call#1 setValue: sameslice(arg2, old(as(delta, *LWWDelta).Data)) && arg3 == res(GetPriority, 1, 0) && arg0 == reg
+//@   tags C01 C02
+//@
+//@ // ===== C02: a counter increment is applied exactly once per merge: one value write, one height write =
+//@ func (*Counter).incrementValue -> (err)
+//@   requires !storeFailed && !corrupt
+//@   tolerates call#1 Get when is(e, corekv.ErrNotFound) "no object marker yet: the document is not deleted"
+//@   ensures err == nil ==> sets == old(sets) + 2
+//@   modifies sets, storeFailed, corrupt
+//@   tags C02
+//@ func (*Counter).Merge -> (err)
+//@   requires !storeFailed && !corrupt
+//@   modifies sets, storeFailed, corrupt
+//@   assert before call#1 incrementValue: sameslice(arg2, old(as(delta, *CounterDelta).Data)) && arg0 == c
+//@   tags C02
+//@ extern cbor.Marshal(v) -> (b, e)
+//@ extern cbor.Unmarshal(b, v) -> (e)
+//@ func validateAndIncrement[int64] -> (r, err)
+//@   assert before call#1 Marshal: arg0 == box(res(getCurrentValue[int64], 1, 0) + res(getNumericFromBytes[int64], 1, 0))
+//@   assert before call#1 getCurrentValue[int64]: allowDecrement || res(getNumericFromBytes[int64], 1, 0) >= 0
+//@   assert before call#1 getNumericFromBytes[int64]: sameslice(arg0, valueAsBytes)
+//@   modifies failed, storeFailed, corrupt
+//@   tags C02
+//@ func validateAndIncrement[float64] -> (r, err)
+//@   assert before call#1 Marshal: arg0 == box(res(getCurrentValue[float64], 1, 0) + res(getNumericFromBytes[float64], 1, 0))
+//@   assert before call#1 getNumericFromBytes[float64]: sameslice(arg0, valueAsBytes)
+//@   modifies failed, storeFailed, corrupt
+//@   tags C02
+//@
+//@ // ===== C02: a deleted document is never resurrected by a later merge ================================
+//@ func (*DocComposite).Merge -> (err)
+//@   tolerates call#1 Get when is(e, corekv.ErrNotFound) "no object marker yet: it is created below"
+//@   modifies sets, storeFailed, corrupt
+//@   assert before call#1 Set: len(arg3) == 1 && arg3[0] == base.DeletedObjectMarker && res(IsDeleted, 1, 0)
+//@   assert before call#3 Set: is(res(Get, 1, 1), corekv.ErrNotFound) && len(arg3) == 1 && arg3[0] == base.ObjectMarker
+//@   tags C02 C01
+//@
+//@ // ===== C04: cloning a delta (encrypt / decrypt path) keeps every field of it, the height included =====
+//@ func (CRDT).Clone -> (r)
+//@   ensures c.LWWDelta != nil ==> r.LWWDelta != nil && r.LWWDelta.Priority == c.LWWDelta.Priority && sameslice(r.LWWDelta.Data, c.LWWDelta.Data) && r.LWWDelta.FieldName == c.LWWDelta.FieldName && sameslice(r.LWWDelta.DocID, c.LWWDelta.DocID) && r.LWWDelta.SchemaVersionID == c.LWWDelta.SchemaVersionID
+//@   ensures c.LWWDelta == nil && c.DocCompositeDelta != nil ==> r.DocCompositeDelta != nil && r.DocCompositeDelta.Priority == c.DocCompositeDelta.Priority && r.DocCompositeDelta.Status == c.DocCompositeDelta.Status && sameslice(r.DocCompositeDelta.DocID, c.DocCompositeDelta.DocID) && r.DocCompositeDelta.SchemaVersionID == c.DocCompositeDelta.SchemaVersionID
+//@   ensures c.LWWDelta == nil && c.DocCompositeDelta == nil && c.CounterDelta != nil ==> r.CounterDelta != nil && r.CounterDelta.Priority == c.CounterDelta.Priority && r.CounterDelta.Nonce == c.CounterDelta.Nonce && sameslice(r.CounterDelta.Data, c.CounterDelta.Data) && r.CounterDelta.FieldName == c.CounterDelta.FieldName && sameslice(r.CounterDelta.DocID, c.CounterDelta.DocID) && r.CounterDelta.SchemaVersionID == c.CounterDelta.SchemaVersionID
+//@   ensures c.LWWDelta == nil && c.DocCompositeDelta == nil && c.CounterDelta == nil && c.CollectionDelta != nil ==> r.CollectionDelta != nil && r.CollectionDelta.Priority == c.CollectionDelta.Priority && r.CollectionDelta.SchemaVersionID == c.CollectionDelta.SchemaVersionID
+//@   tags C04 C11
